@@ -104,6 +104,10 @@ class Terminologies(dict):
             print("Failed to load %s due to parser errors" % url)
             print(' "%s"' % exc)
             term = None
+        except Exception as exc:
+            # e.g. an include of the file that cannot be resolved
+            print("Failed to load %s: %s" % (url, exc))
+            term = None
         self[url] = term
         return term
 
